@@ -14,8 +14,11 @@ RULE = (
     "on both sides) x verify x cache_odb (none / all / some directory objects) x source class x destination class x "
     "destination index x source index; the would-be uploads are observed by a fault-free run, then for a fail set "
     "(thorough: every subset when <=4 uploads, else random subsets; quick: seeded sample): faulty round + fault-free "
-    "retry on the result, some scenarios with an external deletion behind the index's back, plus crash rounds "
-    "(correspondence only). A scenario is non-trivial when an upload happened and a failure, crash, verification "
+    "retry on the result (35% of the faulty rounds make some failing uploads partial: a strict prefix of the bytes "
+    "is left under the final name), some scenarios with an external deletion behind the index's back, plus crash "
+    "rounds (correspondence only); plus histories of 2-4 rounds on one persistent destination index with per-round "
+    "requests (push A; A's directory object and some files vanish; push B + a file of A / files only / A again). Every "
+    "round's TransferResult is judged. A scenario is non-trivial when an upload happened and a failure, crash, verification "
     "drop, file missing on both sides or pre-populated destination is involved."
 )
 ASSUMPTIONS = [
@@ -54,7 +57,7 @@ def _register(ctx, S, notes, items):
     for ob in S.rounds:
         ctx.count("outcome:" + ob["outcome"][0] + (str(ob["outcome"][1]) if ob["outcome"][0] == "err" else ""))
     for k, v in S.excluded.items():
-        ctx.count("excluded:" + k, v)
+        ctx.count(k if k.startswith("judged:") else "excluded:" + k, v)
     for sig, what in problems:
         ctx.oracle_fail(sig, what, case)
     inp, exp = S.terms()
@@ -89,7 +92,12 @@ def run(ctx):
             case["dst_cls"] = ctx.rng.choice(["local", "base"])
             case["dix"] = ctx.rng.random() < 0.4
             case["six"] = ctx.rng.random() < 0.12
-            case["rounds"] = [{"fails": list(F), "crash": None, "reset": True},
+            first = {"fails": list(F), "crash": None, "reset": True}
+            if F and ctx.rng.random() < 0.35:
+                # a non-atomic remote: the failing upload leaves a truncated object under the final name
+                first["partial"] = sorted(ctx.rng.sample(list(F), ctx.rng.randint(1, len(F))))
+                ctx.count("fault:partial")
+            case["rounds"] = [first,
                               {"fails": [], "crash": None, "reset": False}]
             if case["dix"] and ctx.rng.random() < 0.35:
                 # delete something behind the index's back, then transfer again
@@ -103,6 +111,14 @@ def run(ctx):
                 n_problems += len(_register(ctx, S, notes, items))
             finally:
                 S.close()
+    # ---- histories: one persistent destination index, per-round requests, external deletions
+    for _ in range(ctx.n(30, 200)):
+        case, notes = TC.gen_history(ctx.rng)
+        S = TC.run_scenario(ctx, case)
+        try:
+            n_problems += len(_register(ctx, S, notes, items))
+        finally:
+            S.close()
     ctx.obligation("oracle:result-truthful", n_problems == 0,
                    f"{len(items)} scenarios, {ctx.dist.get('rounds', 0)} real transfer rounds, "
                    f"{ctx.dist.get('judged-rounds', 0)} results judged (partition, presence+bytes, absent=>reported, "
